@@ -17,6 +17,12 @@ for path in sys.argv[1:]:
         name, prop, tests, rc, first = m.groups()
         if not name.startswith(('seeded:', 'silent:')) and not os.path.exists('/verif/selftest/planted/%s.diff' % name):
             continue  # renamed or moved since that log was written
+        if name.startswith('silent:') and not os.path.exists('/verif/selftest/silent/%s.diff' % name[7:]):
+            continue  # reclassified or dropped since
+        if name.startswith('seeded:'):
+            mp = '/verif/seeded/%s/meta.json' % name[7:]
+            if os.path.exists(mp) and prop not in (json.load(open(mp)).get('checks') or [prop]):
+                continue  # a check the change was once tried against as a guess, no longer listed for it
         key = (name, prop)
         if key not in rows:
             order.append(key)
